@@ -111,6 +111,21 @@ Definition py_call (proto : N) (f : pv) (args : list pv) : option pv :=
 
 Definition push1 (v : pv) (s : list pitem) : option (list pitem) := Some (PObj v :: s).
 
+(* decimal integer text as CPython's pickler writes it: no sign for zero, no leading zeros, no '+' *)
+Definition int_text (t : bytes) : option Z :=
+  match parse_dec_Z t with
+  | Some z => if bytes_eqb t (dec_of_Z z) then Some z else None
+  | None => None
+  end.
+
+(* float text: decimal digits, sign, point, exponent - or inf / nan spelled in lower case *)
+Definition float_char (b : byte) : bool :=
+  is_digit b || beqb b "+"%byte || beqb b "-"%byte || beqb b "."%byte || beqb b "e"%byte || beqb b "E"%byte.
+Definition float_text (t : bytes) : option N :=
+  if forallb float_char t || bytes_eqb t (bs "inf") || bytes_eqb t (bs "-inf") || bytes_eqb t (bs "nan") then
+    match parse_float t with PFok b => Some b | _ => None end
+  else None.
+
 Definition pstep (proto : N) (i : insn) (s : list pitem) : option (list pitem) :=
   match i with
   | INone => push1 PNone s
@@ -119,21 +134,21 @@ Definition pstep (proto : N) (i : insn) (s : list pitem) : option (list pitem) :
   | IInt t =>
       if bytes_eqb t (bs "00") then push1 (PBool false) s
       else if bytes_eqb t (bs "01") then push1 (PBool true) s
-      else match parse_dec_Z t with Some z => push1 (PInt z) s | None => None end
+      else match int_text t with Some z => push1 (PInt z) s | None => None end
   | IBinint1 n => push1 (PInt (Z.of_N (n mod 256))) s
   | IBinint2 n => push1 (PInt (Z.of_N (n mod 65536))) s
   | IBinint n =>
       let u := n mod 4294967296 in
       push1 (PInt (if u <? 2147483648 then Z.of_N u else (Z.of_N u - 4294967296)%Z)) s
-  | ILong t => match parse_dec_Z t with Some z => push1 (PInt z) s | None => None end
+  | ILong t => match int_text t with Some z => push1 (PInt z) s | None => None end
   | IBinfloat b => push1 (PFloat (b mod 2 ^ 64)) s
-  | IFloat t => match parse_float t with PFok b => push1 (PFloat b) s | _ => None end
+  | IFloat t => match float_text t with Some b => push1 (PFloat b) s | None => None end
   | IString q =>
       match q with
       | q0 :: r =>
           match lastb r with
           | Some q1 =>
-              if beqb q0 q1 && (beqb q0 "'"%byte || beqb q0 """"%byte) then
+              if beqb q0 q1 && (beqb q0 "'"%byte || beqb q0 """"%byte) && no_lf q then
                 match pydecode_string_escape (removelast r) with
                 | Ok b => push1 (PStr b) s
                 | _ => None
